@@ -392,3 +392,69 @@ def opgrid_programs(rng, ops=None, per_op=6, widths=("u32", "u8")):
                                         "~mod<<": "modshl", "~sat+": "satadd", "~sat-": "satsub"}[op])
             out.append((name, "\n".join(L)))
     return out
+
+
+# ---------------------------------------------------------------------------
+# Stale-fact grid (negative corpus, generated): a guard establishes a fact that mentions a variable in one syntactic
+# POSITION (index, slice lower/upper bound, operand of an arithmetic sub-expression, element of an array), an EVENT
+# changes the variable (assignment, compound assignment, impure call, suspension), and a use needs the fact.  Every
+# program must be REJECTED; if a checker change accepts one it becomes an accepted program like any other and the
+# model finds the index / slice / pre-condition fault or the false fact.
+
+_SF_HEAD = """pub status "$wait"
+
+pub struct foo?(
+	a : array[4] base.u8,
+	buf : array[8] base.u8,
+	n : base.u32[..= 8],
+	last : base.u32,
+)
+
+pub func foo.get_last() base.u32 {
+	return this.last
+}
+
+pub func foo.set!(i: base.u32[..= 7], v: base.u8) {
+	this.buf[args.i] = args.v
+	this.a[args.i & 3] = args.v
+}
+
+pri func foo.bump!() {
+	this.n = 8
+}
+"""
+
+# (name, variable kind, guard using V, use needing the guard)
+_SF_SHAPES = [
+    ("index", "V < 4", "v = this.a[V] as base.u32"),
+    ("slicelo", "this.buf[V ..].length() >= 4", "v = this.buf[V ..].peek_u32le()"),
+    ("slicehi", "this.buf[.. V].length() >= 2", "v = this.buf[.. V].peek_u16le() as base.u32"),
+    ("arith", "(V + 1) < 4", "v = this.a[V + 1] as base.u32"),
+    ("elem", "this.a[V & 3] < 4", "v = this.a[this.a[V & 3]] as base.u32"),
+]
+
+
+def stalefact_programs():
+    out = []
+    for sname, guard, use in _SF_SHAPES:
+        # local variable i: base.u32[..= 8]
+        for ename, event in (("assign", "i = args.k"), ("addassign", "i ~mod+= 1\n\t\ti = i & 7"), ("selfassign", "i = (i + 1) & 7")):
+            if ename == "addassign":
+                ev = "i = (i ~mod+ 1) & 7"
+            else:
+                ev = event
+            body = ["pub func foo.f!(k: base.u32[..= 8]) base.u32 {", "\tvar i : base.u32[..= 8]", "\tvar v : base.u32", "",
+                    "\ti = args.k & 3", "\tif %s {" % guard.replace("V", "i"), "\t\t" + ev, "\t\t" + use.replace("V", "i"), "\t}",
+                    "\tthis.last = v", "\treturn v", "}", ""]
+            out.append(("stalefact_%s_local_%s" % (sname, ename), _SF_HEAD + "\n" + "\n".join(body)))
+        # field this.n, changed by an impure call or across a suspension
+        g, u = guard.replace("V", "this.n"), use.replace("V", "this.n")
+        body = ["pub func foo.f!(k: base.u32[..= 8]) base.u32 {", "\tvar v : base.u32", "",
+                "\tthis.n = args.k & 3", "\tif %s {" % g, "\t\tthis.bump!()", "\t\t" + u, "\t}",
+                "\tthis.last = v", "\treturn v", "}", ""]
+        out.append(("stalefact_%s_field_call" % sname, _SF_HEAD + "\n" + "\n".join(body)))
+        body = ["pub func foo.set_n!(k: base.u32[..= 8]) {", "\tthis.n = args.k", "}", "",
+                "pub func foo.f?(src: base.io_reader) {", "\tvar v : base.u32", "",
+                "\tif %s {" % g, "\t\tyield? \"$wait\"", "\t\t" + u, "\t}", "\tthis.last = v", "}", ""]
+        out.append(("stalefact_%s_field_yield" % sname, _SF_HEAD + "\n" + "\n".join(body)))
+    return out
